@@ -83,3 +83,21 @@ class LiteralTypeHint(TypeHint):
             #     True
             super()._is_subhint(other)
         )
+
+
+    def _is_subhint_branch(self, branch: TypeHint) -> bool:
+
+        # If this branch of the passed hint is also a literal (e.g., the
+        # "Literal[True]" child hint of the union "Union[Literal[True], int]"),
+        # return true only if the set of all child hints subscripting this
+        # literal is a subset of the set of all child hints subscripting that
+        # literal. Deferring to the superclass implementation here would
+        # erroneously compare the (intentionally empty) tuples of wrapped child
+        # hints of these literals and thus vacuously succeed.
+        if isinstance(branch, LiteralTypeHint):
+            return all(self_arg in branch._args for self_arg in self._args)
+        # Else, this branch is *NOT* also a literal.
+
+        # Defer to the superclass implementation of this method.
+        return super()._is_subhint_branch(branch)
+
